@@ -93,7 +93,7 @@ int parse_rseed(const char *hex19, unsigned birthday, unsigned features, rseed *
 /* ------------------------------------------------------------------ results */
 #define NCLS 40
 #define MAXV 400
-struct viol { char key[160]; char replay[1500]; char msg[600]; };
+struct viol { char key[160]; char replay[2600]; char msg[600]; };
 struct res {
     uint64_t cases, calls, validated, digest;
     uint64_t cls[NCLS];
